@@ -47,6 +47,8 @@ type handler1 struct {
 	snRemoteAddr     net.Addr
 	mqttConn         *util.ConnWithContext
 	registeredTopics sync.Map // uint16 => string
+	// TopicIDs sent to the client in a REGISTER which is not acknowledged yet.
+	pendingTopics    sync.Map // string => uint16
 	predefinedTopics topics.PredefinedTopics
 	keepAlive        uint16
 	clientID         string
@@ -346,9 +348,19 @@ func (h *handler1) handleBrokerPublish(ctx context.Context, mqPublish *mqPkts.Pu
 	var snPkt snPkts.Packet
 	var nextState transactionState
 	if needsRegister {
-		topicID, err := h.newTopicID()
-		if err != nil {
-			return err
+		// A burst of messages on a new topic: reuse the TopicID of the
+		// pending registration. The client would refuse another TopicID for
+		// a topic name it already knows.
+		var topicID uint16
+		if pendingID, ok := h.pendingTopics.Load(mqPublish.TopicName); ok {
+			topicID = pendingID.(uint16)
+		} else {
+			var err error
+			topicID, err = h.newTopicID()
+			if err != nil {
+				return err
+			}
+			h.pendingTopics.Store(mqPublish.TopicName, topicID)
 		}
 
 		// snPublish will be sent after REGACK is received
